@@ -3,6 +3,7 @@ package harness
 import (
 	"context"
 	"errors"
+	"fmt"
 	"github.com/mohae/deepcopy"
 	"maps"
 	"net/url"
@@ -58,6 +59,8 @@ type RecStore struct {
 	// creation order of rows per kind ("code","at","rt","dev","par"): the abstract id of a
 	// credential is its position in this list, which is how the specification numbers them
 	Order map[string][]string
+
+	nonces map[string]nonceRow // handler/verifiable NonceManager
 }
 
 // cpReq / cpOut implement the "copying store" configuration: what is handed to the store is copied on the way in and what
@@ -363,6 +366,38 @@ func (s *RecStore) MarkJWTUsedForTime(ctx context.Context, jti string, exp time.
 	}
 	return s.MemoryStore.MarkJWTUsedForTime(ctx, jti, exp)
 }
+
+// NonceManager of handler/verifiable (the reference store has none): nonces are remembered per access token.
+func (s *RecStore) NewNonce(ctx context.Context, accessToken string, expiresAt time.Time) (string, error) {
+	if _, err := s.pre(ctx, "NewNonce", nil, accessToken); err != nil {
+		return "", err
+	}
+	s.mu.Lock()
+	defer s.mu.Unlock()
+	if s.nonces == nil {
+		s.nonces = map[string]nonceRow{}
+	}
+	n := fmt.Sprintf("nonce-%d", len(s.nonces)+1)
+	s.nonces[n] = nonceRow{at: accessToken, exp: expiresAt}
+	return n, nil
+}
+func (s *RecStore) IsNonceValid(ctx context.Context, accessToken string, nonce string) error {
+	if _, err := s.pre(ctx, "IsNonceValid", nil, accessToken, nonce); err != nil {
+		return err
+	}
+	s.mu.Lock()
+	defer s.mu.Unlock()
+	if r, ok := s.nonces[nonce]; !ok || r.at != accessToken || r.exp.Before(time.Now()) {
+		return fosite.ErrNotFound
+	}
+	return nil
+}
+
+type nonceRow struct {
+	at  string
+	exp time.Time
+}
+
 func (s *RecStore) CreatePARSession(ctx context.Context, uri string, r fosite.AuthorizeRequester) error {
 	if _, err := s.pre(ctx, "CreatePARSession", r, uri); err != nil {
 		return err
